@@ -385,6 +385,14 @@ func (c *jsonCtx) oracleC16(line []byte, hasLF bool, run jsonRun, accept bool, w
 			more = imp.Import()
 			if more {
 				row, err = imp.GetRow()
+				// the end of the input, reached and asked again: every entry point still answers (no row, no panic)
+				for k := 0; k < 2; k++ {
+					if imp.Import() {
+						break
+					}
+					_, _ = imp.GetRow()
+					_, _ = imp.ReadOne()
+				}
 			}
 		}); msg != "" {
 			c.viol("C16", "panic in the importer", line, map[string]interface{}{"panic": msg})
@@ -871,6 +879,9 @@ func jsonLines(r *rng, n int, thorough bool) []jsonLine {
 		}
 		add([]byte(d), "valid/rich")
 	}
+	// valid shallow lines with very many containers (a count of open containers must go down again when one closes)
+	add([]byte(`{"a":[`+strings.TrimSuffix(strings.Repeat(`[1,2],`, 12000), ",")+`]}`), "valid/12000 arrays")
+	add([]byte(`{"a":[`+strings.TrimSuffix(strings.Repeat(`{"x":[]},`, 6000), ",")+`],"b":{}}`), "valid/12000 containers")
 	rest := n - len(ls)
 	if rest < 200 {
 		rest = 200
@@ -974,7 +985,11 @@ func jsonStream(seed uint64, tier string, outDir string, props map[string]bool, 
 			seen[string(l.b)] = true
 			rep.Distinct++
 		}
-		terms = append(terms, c.line(l))
+		if t := c.line(l); len(l.b) <= 16*1024 {
+			terms = append(terms, t)
+		} else {
+			rep.Distribution["direct oracles only (line too large to be shipped to coqc)"]++
+		}
 	}
 	c.apiRows(newRng(seed, "json/api"), nAPI)
 	if len(rep.Samples) == 0 && len(lines) > 0 {
